@@ -109,12 +109,12 @@ theorem sim_exprM {W : World} {M : Msl.MWorld} {env : Ast.Env} {cx : Ctx} {vis :
         | none => simp [hreq] at hok
         | some gs =>
           simp only [hreq, Bool.and_eq_true] at hok
-          obtain ⟨hokargs, href, hvis⟩ := hok
+          obtain ⟨⟨hokargs, hcalled⟩, href, hvis⟩ := hok
           simp [genExpr, hga, hreq] at hg; subst hg
           have htail := globalArgs_eval (M := M) hag gs hvis
           have hargs := sim_argsM hag hw args as ps (globalArgs cx gs) (globParams cx gs) (globMArgs gs) hga hargsok hokargs htail
           have hnotfmod : (cx.funcName f == Msl.fmodName) = false := by simpa using (hag.notLib f).1
-          have hsigM := hw.sig f rt ps gs hsig hreq
+          have hsigM := hw.sig f rt ps gs hsig hreq hcalled
           have htag : Msl.hasTagArg (appendArgs as (globalArgs cx gs)) = false := by
             rw [hasTag_append, hasTag_globalArgs, Bool.or_false]
             exact genArgs_not_tag (fun f => (hag.notLib f).2) args as ps hga hargsok
@@ -126,7 +126,7 @@ theorem sim_exprM {W : World} {M : Msl.MWorld} {env : Ast.Env} {cx : Ctx} {vis :
             | none => simp
             | some r =>
               obtain ⟨l, σ1⟩ := r
-              obtain ⟨hfit, hfacts⟩ := evalArgs_facts W (rsv f) args ps σ l σ1 hev href
+              obtain ⟨hfit, hfacts⟩ := evalArgs_facts W cx.vty (rsv f) args ps σ l σ1 hev href hargsok
               have hvals : l.map (valAt σ1) = l.map (·.1) := by
                 apply List.map_congr_left
                 intro p hp
@@ -134,7 +134,7 @@ theorem sim_exprM {W : World} {M : Msl.MWorld} {env : Ast.Env} {cx : Ctx} {vis :
                 cases o with
                 | none => rfl
                 | some x => exact (hfacts (v, some x) hp x rfl).2
-              have hcall := hw.call f rt ps gs l σ1 hsig hreq hfit (fun p hp x hx => (hfacts p hp x hx).1)
+              have hcall := hw.call f rt ps gs l σ1 hsig hreq hcalled hfit (fun p hp x hx => (hfacts p hp x hx).1)
               simp only [hcall, hvals]
               cases W.phi f (List.map (fun x => x.fst) l) σ1 <;> simp [mVal, Ir.isMin]
   | .intr i T ret args, a, t, hg, ht, hok => by simp [genExpr] at hg
